@@ -317,7 +317,7 @@ func check(r *core.Run) {
 	// the goyang binary, from /repo's working tree
 	bin := r.Out + "/goyang"
 	cmd := exec.Command("go", "build", "-o", bin, ".")
-	cmd.Dir = "/repo"
+	cmd.Dir = core.RepoDir
 	cmd.Env = append(os.Environ(), "GOFLAGS=-mod=mod", "GOPROXY=off", "GOSUMDB=off", "GOTOOLCHAIN=local")
 	if b, err := cmd.CombinedOutput(); err != nil {
 		r.Infra("goyang does not build: " + err.Error() + " " + string(b))
